@@ -79,6 +79,14 @@ def _oid(r):
     for _ in range(r.randrange(0, 7)):
         rest.append(r.choice([0, 1, 127, 128, 255, 16383, 16384, 840, 10045,
                               r.getrandbits(r.randrange(1, 40))]))
+    if r.random() < 0.04:
+        # arcs far beyond machine words and beyond float range
+        big = (1 << r.choice([64, 128, 1024, 1030, 1100, 2000])) + \
+            r.getrandbits(16)
+        if first == 2 and r.random() < 0.5:
+            second = big
+        else:
+            rest.append(big)
     return [first, second] + rest
 
 
